@@ -636,6 +636,10 @@ struct ares_event_thread;
 typedef struct ares_event_thread ares_event_thread_t;
 
 void          ares_event_thread_destroy(ares_channel_t *channel);
+
+/*! Wake the event thread (if the channel uses one) so that it re-evaluates
+ *  how long it may sleep, e.g. because the earliest query timeout changed. */
+void          ares_event_thread_wake_channel(const ares_channel_t *channel);
 ares_status_t ares_event_thread_init(ares_channel_t *channel);
 
 
